@@ -163,6 +163,25 @@ def run(chk: common.Check):
             if d:
                 sig = "insertion-code-twins-conflated:renumbering" if twins else "labels-influence-numbers:" + what.split(" ")[0] + ("-negative" if "negative" in what else "") + ("-1000" if "1000" in what else "")
                 found.append((sig, f"{n} {what}: {d}", {"case": n, "relabelling": what, "first_difference": d, "pdb_text": t2 if len(t2) < 250000 else None}))
+        # beyond the lexicographic range of the sorting key (C06_sort_key_overlap_refuted) the atom order, hence the order of floating-point
+        # summation, changes: the numbers must still agree to rounding
+        if len(chains) >= 2:
+            a, b = chains[0], chains[1]
+            try:
+                t4 = relabel(relabel(text, {a: "A", b: "B"}), None, {"A": 9000 - min(nums[a]) + 1, "B": -999 - min(nums[b])})
+                mol4, _ = structures.run(t4)
+                chk.count(1, key=("sort-overlap", n))
+                g0 = {(g.type, g.atom.name, g.atom.res_name, i): g for i, g in enumerate(sorted(mol0.conformations[mol0.conformation_names[0]].groups, key=lambda g: (g.atom.chain_id, g.atom.res_num, g.atom.name, g.type)))}
+                g4 = {(g.type, g.atom.name, g.atom.res_name, i): g for i, g in enumerate(sorted(mol4.conformations[mol4.conformation_names[0]].groups, key=lambda g: (g.atom.chain_id, g.atom.res_num, g.atom.name, g.type)))}
+                if g0.keys() != g4.keys():
+                    found.append(("labels-influence-numbers:sort-overlap-groups", f"{n}: group set changes when chain A is numbered from 9001 and chain B from -999", {"case": n}))
+                else:
+                    worst = max((abs(g0[k].pka_value - g4[k].pka_value), k) for k in g0)
+                    if worst[0] > 1e-9:
+                        found.append(("labels-influence-numbers:sort-overlap", f"{n}: chain A numbered from 9001, chain B from -999: pKa of {worst[1][:3]} changes by {worst[0]:.3g}",
+                                      {"case": n, "pdb_text": t4 if len(t4) < 250000 else None}))
+            except ValueError:
+                pass
         # twins created on purpose: two residues sharing chain and number, differing in insertion code, are distinct residues
         t3, desc = make_twins(text, rng)
         mol3, _ = structures.run(t3)
